@@ -5,7 +5,7 @@ Require Import Base.Wire Base.PyStr C14.Model C14.Lemmas C14.Dispatch C14.Trace.
 Local Open Scope N_scope.
 
 (* every command replies the empty string and is logged *)
-Definition final0 : list str -> finalres := fun _ => FinalRes (Some ([], [], [])) false false (SVal (Some [])).
+Definition final0 : list str -> finalres := fun _ => FinalRes (Some ([], [], [])) false false no_flags (SVal (Some [])).
 Definition K_small := Config 10 1 (SStop OStall).       (* stack room for the root proxy only *)
 Definition K_ok := Config 10 5 (SStop OStall).
 Definition t1 : list arg := [AStr [97]; ASub [AStr [97]]].            (* a [a] *)
@@ -18,7 +18,7 @@ Proof. repeat split; try (vm_compute; reflexivity); try (vm_compute; lia); try (
 
 Example eval_ok :
   (subs t1 < k_budget K_ok)%nat /\
-  machine final0 K_ok t1 = Done [Call [] [] [] false; Call [] [] [] false] (OReply []).
+  machine final0 K_ok t1 = Done [Call [] [] [] false no_flags no_flags; Call [] [] [] false no_flags no_flags] (OReply []).
 Proof. repeat split; try (vm_compute; reflexivity); try (vm_compute; lia); try (vm_compute; auto). Qed.
 
 (* nesting limit 1:  a [a [a]] *)
@@ -31,7 +31,7 @@ Proof. repeat split; try (vm_compute; reflexivity); try (vm_compute; lia); try (
 (* a [a] [a [a]]: the sub-command to the left of the too-deep bracket has already run when the line is refused *)
 Definition t3 : list arg := [AStr [97]; ASub [AStr [97]]; ASub [AStr [97]; ASub [AStr [97]]]].
 Example nesting_example_partial_run :
-  ldeep K_n1 0 t3 = true /\ machine final0 K_n1 t3 = Done [Call [] [] [] false] OTooDeep.
+  ldeep K_n1 0 t3 = true /\ machine final0 K_n1 t3 = Done [Call [] [] [] false no_flags no_flags] OTooDeep.
 Proof. repeat split; try (vm_compute; reflexivity); try (vm_compute; lia); try (vm_compute; auto). Qed.
 
 (* plugin Al with command a; plugin Ga with a sub-callback `al` holding a command a *)
@@ -102,7 +102,7 @@ Proof. split; vm_compute; reflexivity. Qed.
 
 (* ---- a 3-level tree:  a [b [c 1] [d]] [e]  ; every command replies its own name followed by "!" ---- *)
 Definition final_name : list str -> finalres :=
-  fun strs => FinalRes (Some ([], [hd [] strs], tl strs)) false false (SVal (Some (hd [] strs ++ [33]))).
+  fun strs => FinalRes (Some ([], [hd [] strs], tl strs)) false false no_flags (SVal (Some (hd [] strs ++ [33]))).
 Definition t_three : list arg :=
   [AStr [97]; ASub [AStr [98]; ASub [AStr [99]; AStr [49]]; ASub [AStr [100]]]; ASub [AStr [101]]].
 
@@ -112,13 +112,13 @@ Example trace_three_levels :
   map (fun e => snd (fst e)) (calls_of final_name K_ok (trace final_name K_ok t_three)) = [[[99]]; [[100]]; [[98]]; [[101]]; [[97]]] /\
   snd (trace_res final_name K_ok t_three) = SVal (Some [97; 33]) /\
   machine final_name K_ok t_three =
-    Done [Call [] [[99]] [[49]] false; Call [] [[100]] [] false; Call [] [[98]] [[99; 33]; [100; 33]] false;
-          Call [] [[101]] [] false; Call [] [[97]] [[98; 33]; [101; 33]] false] (OReply [97; 33]).
+    Done [Call [] [[99]] [[49]] false no_flags no_flags; Call [] [[100]] [] false no_flags no_flags; Call [] [[98]] [[99; 33]; [100; 33]] false no_flags no_flags;
+          Call [] [[101]] [] false no_flags no_flags; Call [] [[97]] [[98; 33]; [101; 33]] false no_flags no_flags] (OReply [97; 33]).
 Proof. repeat split; vm_compute; reflexivity. Qed.
 
 (* a stop in the middle: d calls irc.error; the trace is the post-order prefix up to d *)
 Definition final_err_d : list str -> finalres :=
-  fun strs => if seq_eqb (hd [] strs) [100] then FinalRes (Some ([], [[100]], [])) false false (SStop (OError [100]))
+  fun strs => if seq_eqb (hd [] strs) [100] then FinalRes (Some ([], [[100]], [])) false false no_flags (SStop (OError [100]))
               else final_name strs.
 Example trace_stops :
   map fst (trace final_err_d K_ok t_three) = [[1; 1]; [1; 2]]%nat /\
@@ -130,16 +130,16 @@ Proof. split; vm_compute; reflexivity. Qed.
 Definition s_foo : str := [102; 111; 111].  Definition s_bar : str := [98; 97; 114].
 Definition final_ign : list str -> finalres :=
   fun strs =>
-    if seq_eqb (hd [] strs) [105] then FinalRes (Some ([], [[105]], tl strs)) false true (SVal None)
-    else if seq_eqb (hd [] strs) [116] then FinalRes (Some ([], [[116]], tl strs)) false true (SVal (Some [120]))
-    else FinalRes (Some ([], [[101]], tl strs)) false false (SVal (Some (join [32] (tl strs)))).
+    if seq_eqb (hd [] strs) [105] then FinalRes (Some ([], [[105]], tl strs)) false true no_flags (SVal None)
+    else if seq_eqb (hd [] strs) [116] then FinalRes (Some ([], [[116]], tl strs)) false true no_flags (SVal (Some [120]))
+    else FinalRes (Some ([], [[101]], tl strs)) false false no_flags (SVal (Some (join [32] (tl strs)))).
 Definition t_ign : list arg := [AStr [101]; ASub [AStr [105]]; ASub [AStr [101]; AStr s_foo]; AStr s_bar].
 Definition t_ign_mid : list arg :=
   [AStr [101]; ASub [AStr [101]; AStr s_foo]; ASub [AStr [105]]; ASub [AStr [116]]; ASub [AStr [101]; AStr s_bar; ASub [AStr [105]]]].
 
 Example ignore_then_reply :
   machine final_ign K_ok t_ign =
-    Done [Call [] [[105]] [] false; Call [] [[101]] [s_foo] false; Call [] [[101]] [s_foo; s_bar] false]
+    Done [Call [] [[105]] [] false no_flags no_flags; Call [] [[101]] [s_foo] false no_flags no_flags; Call [] [[101]] [s_foo; s_bar] false no_flags no_flags]
          (OReply (s_foo ++ [32] ++ s_bar)) /\
   map (contributes final_ign K_ok 0) t_ign = [[[101]]; []; [s_foo]; [s_bar]].
 Proof. split; vm_compute; reflexivity. Qed.
@@ -147,7 +147,24 @@ Proof. split; vm_compute; reflexivity. Qed.
 Definition K_big := Config 10 20 (SStop OStall).
 Example ignore_between_and_nested :
   machine final_ign K_big t_ign_mid =
-    Done [Call [] [[101]] [s_foo] false; Call [] [[105]] [] false; Call [] [[116]] [] false; Call [] [[105]] [] false;
-          Call [] [[101]] [s_bar] false; Call [] [[101]] [s_foo; s_bar] false]
+    Done [Call [] [[101]] [s_foo] false no_flags no_flags; Call [] [[105]] [] false no_flags no_flags; Call [] [[116]] [] false no_flags no_flags; Call [] [[105]] [] false no_flags no_flags;
+          Call [] [[101]] [s_bar] false no_flags no_flags; Call [] [[101]] [s_foo; s_bar] false no_flags no_flags]
          (OReply (s_foo ++ [32] ++ s_bar)).
 Proof. vm_compute; reflexivity. Qed.
+
+(* ---- `e x [c hello] y`: c replies with action=True (Reply.action); the text still becomes e's argument and the
+   attribute sticks to the parent proxy, whose own reply is made as an action ---- *)
+Definition act_flags : rflags := RFlags true false false false [].
+Definition final_act : list str -> finalres :=
+  fun strs =>
+    if seq_eqb (hd [] strs) [99] then FinalRes (Some ([], [[99]], tl strs)) false false act_flags (SVal (Some (join [32] (tl strs))))
+    else FinalRes (Some ([], [[101]], tl strs)) false false no_flags (SVal (Some (join [32] (tl strs)))).
+Definition s_hello : str := [104; 101; 108; 108; 111].
+Definition t_act : list arg := [AStr [101]; AStr [120]; ASub [AStr [99]; AStr s_hello]; AStr [121]].
+Definition acted : rflags := RFlags true true false false [].       (* action implies noLengthCheck *)
+
+Example action_subcommand :
+  machine final_act K_ok t_act =
+    Done [Call [] [[99]] [s_hello] false no_flags acted; Call [] [[101]] [[120]; s_hello; [121]] false acted acted]
+         (OReply ([120; 32] ++ s_hello ++ [32; 121])).
+Proof. vm_compute. reflexivity. Qed.
